@@ -48,6 +48,7 @@ def recover_points(binary, sess, points, tag="img"):
     root = sess["root"]
     imgroot = os.path.join(sess["work"], tag)
     dirs = {}
+    remat = {}
     order = []
     for i, p in enumerate(points):
         key = p.digest if p.digest != "perm" else "perm-%d" % i
@@ -56,8 +57,9 @@ def recover_points(binary, sess, points, tag="img"):
             d = os.path.join(imgroot, "p%05d%s" % (i, "[g]*?" if i % 3 == 0 else ""))
             crash.materialize(p.snap, root, d)
             dirs[key] = d
+            remat[d] = (lambda snap=p.snap, d=d: crash.materialize(snap, root, d))
         order.append(key)
-    res = crash.recover_images(binary, list(dirs.values()), [k.hex() for k in sess["keys"]], NKEYS, decode=True, cont=True)
+    res = crash.recover_images(binary, list(dirs.values()), [k.hex() for k in sess["keys"]], NKEYS, decode=True, cont=True, remat=remat)
     shutil.rmtree(imgroot, ignore_errors=True)
     return [res[dirs[k]] for k in order]
 
